@@ -641,6 +641,9 @@ class DataSegment(object):
         norm_subscript = self.verify_formatted_subscript(subscript)
         raw_subscript = self.format_function.transform_formatted_slice(norm_subscript)
         raw_data = self.read_raw(raw_subscript, squeeze=False)
+        if self.formatted_ndim > len(raw_subscript):
+            # formatted dimensions which the format function creates (2-d lookup table)
+            raw_subscript = raw_subscript + norm_subscript[len(raw_subscript):]
         return self.format_function(raw_data, raw_subscript, squeeze=squeeze)
 
     # noinspection PyTypeChecker
